@@ -252,6 +252,12 @@ def check_custom(ctx, lib):
     ctx.attempt("check_arity", check_arity, ctx, lib)
     ctx.attempt("check_positions", check_positions, ctx, lib)
     ctx.attempt("check_is_valid", check_is_valid, ctx, lib)
+    # a call on the right of a pipe / dot is reached whatever the left side produced (no shortcut): Subexpr row (shared with C01)
+    from ..interp import Interp
+    from . import c01
+    ip = Interp(lib)
+    if ip.ok and "Subexpr" in ip.arms:
+        ctx.attempt("arm_Subexpr", c01.arm_Subexpr, ctx, ip, ip.arms["Subexpr"])
     cn = ctx.fn("functions::CustomFunction::new", rule=rule)
     if cn is not None:
         o = Origins(cn, lib)
